@@ -31,8 +31,9 @@ RULE = (
     "by neighbouring octets which the caller overwrites afterwards. "
     "Histories (engine H, stateless): ONE telecommand object, started in each of 4 ways (constructor, unpack, from_sp_header, "
     "from_composite_fields) from each of K backgrounds, is driven through EVERY sequence of D events of the menu {pack(), "
-    "pack(recalc_crc=False), calc_crc(), to_space_packet(), construct+pack+view+decode of an unrelated telecommand, apid= (2 values), "
-    "seq_count= (2), source_id= (2), app_data= (shorter, equal, longer)} = 14 events; a plain dict holds the values last set; after the "
+    "pack(recalc_crc=False), calc_crc(), to_space_packet(), construct+pack+view+decode of an unrelated telecommand, all setters applied to a "
+    "constructed and a decoded twin carrying the same values, apid= (2 values), seq_count= (2), source_id= (2), app_data= (shorter, equal, "
+    "longer, 300 octets)} = 16 events; a plain dict holds the values last set; after the "
     "start and after every event: every accessor, data length, packet_len, == (both directions) with a freshly constructed telecommand of "
     "the model's values; every octet string a reading event returns (pack, the space-packet view) = ref/pus.py of the model; crc16 "
     "right after the events that calculate it; pack(recalc_crc=False) judged only while no setter ran since the last CRC calculation "
@@ -47,9 +48,9 @@ BOUNDS = {
              "fields, walk(n) and every 17th value of the 14/16-bit fields, a strength-5 covering array of the edge product "
              "(index sum = 0 mod 8: 32 768 vectors), payloads of length <= 1 and the 2-octet payloads with (b0+b1) mod 16 = 0, "
              "all shaped lengths; reject: seq count in walk(14) (34 values), solved trailers ack in edge(4) x service in edge(8); "
-             "histories: D=3 (2 744 per start, 16 starts); independence: all vector shards",
+             "histories: D=3 (4 096 per start, 16 starts); independence: all vector shards",
     "thorough": "K=8 backgrounds, Kp=4, space-packet view + check_pus_crc on every vector; reject: seq count in walk(14) U every 61st value (302 values), solved trailers ack in full(4) x service in walk(8); "
-                "histories: D=4 (38 416 per start, 32 starts); independence: all vector shards",
+                "histories: D=4 (65 536 per start, 32 starts); independence: all vector shards",
 }
 ASSUMPTIONS = [
     "ref/pus.py, ref/ccsds.py, ref/crc16.py transcribe ECSS-E-ST-70-41C / CCSDS 133.0-B-2 (bound to the repository's expected vectors by selftest/st_ref_pus.py)",
@@ -168,12 +169,16 @@ def observe(u):
 
 
 def keep_obs(o):
-    """copying observation of a telecommand object held by the Keeper: every accessor and its octets"""
-    return observe(o)[:7] + (o.sp_header.data_len, o.packet_len, bytes(o.pack()))
+    """copying observation of a telecommand object held by the Keeper: plain attribute reads only (an observation that
+    called pack() would itself write whatever hidden state the library shares, and could repair what it is looking for);
+    the octets are held separately - the very bytearray pack() returned"""
+    return observe(o)
 
 
 def keep_view(sp):
-    return bytes(sp.pack())
+    h = sp.sp_header
+    return (h.apid, h.seq_count, h.data_len, int(h.packet_type), int(h.seq_flags), None if sp.sec_header is None else bytes(sp.sec_header),
+            None if sp.user_data is None else bytes(sp.user_data))
 
 
 def keep_depth(routes: bool, deep: bool) -> int:
@@ -183,7 +188,7 @@ def keep_depth(routes: bool, deep: bool) -> int:
 
 
 def keep_hdr(h):
-    return (h.service, h.subservice, h.source_id, int(h.ack_flags), bytes(h.pack()))
+    return (h.service, h.subservice, h.source_id, int(h.ack_flags), int(h.pus_version))
 
 
 def check_tc(rec: Rec, f, spec, nontrivial=True, routes=False, deep=True, keeper=None):
@@ -401,9 +406,9 @@ H_SET = {
     "apid": [0x7FF, 0x2AA],
     "seq_count": [0x3FFF, 0x1555],
     "source_id": [0xFFFF, 0x00A5],
-    "app_data": [b"", b"\x5a", b"\x01\x02\x03\x04"],  # shorter / as long as / longer than the start values' data
+    "app_data": [b"", b"\x5a", b"\x01\x02\x03\x04", b"\xc3" * 300],  # shorter / as long as / longer than the start values' data / length > 255
 }
-H_READ = ["pack", "pack(recalc_crc=False)", "calc_crc", "to_space_packet", "decode-another"]
+H_READ = ["pack", "pack(recalc_crc=False)", "calc_crc", "to_space_packet", "decode-another", "setters-on-a-twin"]
 H_EVENTS = H_READ + ["%s=%d" % (k, i) for k in ("apid", "seq_count", "source_id", "app_data") for i in range(len(H_SET[k]))]
 H_MODES = ["constructed", "decoded", "from_sp_header", "from_composite_fields"]
 H_OTHER = dict(service=0xC3, subservice=0x3C, apid=0x123, seq_count=0x0ABC, source_id=0x1357, ack_flags=0b0110, app_data=b"\xde\xad\xbe\xef\x99")
@@ -540,6 +545,16 @@ def run_history(rec: Rec, k, mode, events, nontrivial=True):
                 y = m.PusTc.unpack(other_ref)
                 if bytes(x.pack()) != other_ref or bytes(y.pack()) != other_ref or bytes(y.to_space_packet().pack()) != other_ref or h_pure(y)[:7] != tuple(H_OTHER[k_] for k_ in H_KEYS):
                     bad("another-telecommand/octets", short(bytes(y.pack())), short(other_ref))
+                name = None
+            elif ev == "setters-on-a-twin":
+                # two more telecommands with the SAME values (one constructed, one decoded) are modified through every setter: this one must not follow
+                tw = dict(model, apid=model["apid"] ^ 0x155, seq_count=model["seq_count"] ^ 0x0AAA, source_id=model["source_id"] ^ 0x5A5A, app_data=model["app_data"] + b"\x77")
+                for twin in (h_make(m, "constructed", model), h_make(m, "decoded", model)):
+                    for field in ("apid", "seq_count", "source_id", "app_data"):
+                        setattr(twin, field, tw[field])
+                    out = bytes(twin.pack())
+                    if out != h_ref(tw):
+                        bad("twin-telecommand/octets/" + _region(out, h_ref(tw)), short(out), short(h_ref(tw)))
                 name = None
             else:
                 field, idx = ev.split("=")
